@@ -190,7 +190,7 @@ def _(c):
 
 
 
-@contract(f"{Q}.__init__", ["C03", "C06"], name="Quantity.__init__[cancelling-units-next-to-a-dimensionless-one]")
+@contract(f"{Q}.__init__", ["C03", "C04", "C06"], name="Quantity.__init__[cancelling-units-next-to-a-dimensionless-one]")
 def _(c):
     c.bound = "expressions of zero total dimension that contain a dimensionless table unit"
     for expr, kept, f in [("%*m/km", "%", 1e-3), ("ppth*J/erg", "ppth", 1e7), ("[pi]*km2/m2", "[pi]", 1e6), ("m/km*%", "%", 1e-3), ("%", "%", 1.0), ("m/km", None, 1e-3)]:
@@ -199,6 +199,7 @@ def _(c):
         c.scenario(expr, pre)
     c.ensures("near(self.magnitude.value, magnitude * f)", "only-the-factors-of-the-dropped-units-are-folded-in")
     c.ensures("self.baseunits.expression == kept", "the-dimensionless-unit-stays")
+    c.ensures("near(self.value('%'), 100 * magnitude * f * (0.01 if kept == '%' else (0.001 if kept == 'ppth' else (3.141592653589793 if kept == '[pi]' else 1.0))))", "converts-to-percent-by-all-factors-once")
     c.no_raise()
 
 
@@ -233,3 +234,25 @@ for opname in ("__mul__", "__truediv__"):
         c.ensures("exps_of(u) == old(exps_of(u))", "operand-keeps-its-exponents")
         c.fresh("result.baseunits", "result-dict-is-fresh")
         c.no_raise()
+
+
+# ---- a rejected unit string leaves nothing behind: the next string is read on its own (no token of the rejected one takes part) --------------
+AFTER_REJECTED = [("kg*m2/qq", "s"), ("N*mCel", "km"), ("2*km/?s", "kg*m/s2"), ("kg/(m*xs2)", "J/(mol*K)"), ("(m", "m/s/s"), ("m*", "(kg*m)/(s2*mol)")]
+
+
+@contract(f"{BU}.__init__", ["C03"], name="BaseUnits.__init__[after-a-rejected-string]")
+def _(c):
+    c.bound = "the listed pairs (a string rejected part-way, then a valid one), in one process"
+    comp = {e: (t, n) for e, t, n in compounds()}
+    comp.update({"s": ([("", "s", 1, 1)], 1.0), "km": ([("k", "m", 1, 1)], 1.0)})
+    for bad, good in AFTER_REJECTED:
+        def pre(b, bad=bad, good=good):
+            r, exc = b.call_catching(b.cls(BU), bad)
+            b.assume(exc is not None)
+            r2, exc2 = b.call_catching(b.cls(Q), 1.0, bad)
+            terms, num = comp[good]
+            return dict(args=[b.obj(BU), good], env=dict(f=U.factor(terms) * num, dv=[(x.numerator, x.denominator) for x in U.dims(terms)]))
+        c.scenario(f"{bad} then {good}", pre)
+    c.ensures("[(getattr(self.dimensions, n).num * d[1] == d[0] * getattr(self.dimensions, n).den) for n, d in zip(['m','g','s','K','C','cd','mol','rad'], dv)] == [True] * 8", "dimension-vector-of-the-valid-string-alone")
+    c.ensures("near(self.magnitude, f)", "factor-of-the-valid-string-alone")
+    c.no_raise()
